@@ -222,6 +222,7 @@ class AsyncConnectionPool(AsyncRequestInterface):
             pool_request = AsyncPoolRequest(request)
             self._requests.append(pool_request)
 
+        connection: AsyncConnectionInterface | None = None
         try:
             while True:
                 with self._optional_thread_lock:
@@ -256,7 +257,22 @@ class AsyncConnectionPool(AsyncRequestInterface):
                 # For any exception or cancellation we remove the request from
                 # the queue, and then re-assign requests to connections.
                 self._requests.remove(pool_request)
-                closing = self._assign_requests_to_connections()
+                # The request may have been assigned a connection that it never
+                # got to use, if it timed out or was cancelled while waiting.
+                # A connection that was created just for it would otherwise
+                # stay in the pool forever, never having been started.
+                unused = pool_request.connection
+                abandoned = []
+                if (
+                    unused is not None
+                    and unused is not connection
+                    and unused in self._connections
+                    and not unused.is_idle()
+                    and not any(r.connection is unused for r in self._requests)
+                ):
+                    self._connections.remove(unused)
+                    abandoned.append(unused)
+                closing = abandoned + self._assign_requests_to_connections()
 
             await self._close_connections(closing)
             raise exc from None
